@@ -233,7 +233,14 @@ func c03r1(c *core.Ctx) {
 		c.Undecided("PairVerify.ServeHTTP", token.NoPos, "not found")
 		return
 	}
-	installs := core.FindCalls(ep, func(i ssa.Instruction) bool { return core.IsInvoke(i, qSession, "SetCryptographer") })
+	var installs []ssa.Instruction
+	seenAt := map[ssa.Instruction]bool{}
+	for _, l := range liftedSites(ep, func(i ssa.Instruction) bool { return core.IsInvoke(i, qSession, "SetCryptographer") }) {
+		if !seenAt[l.at] {
+			seenAt[l.at] = true
+			installs = append(installs, l.at) // the install itself, or the call of the helper that installs
+		}
+	}
 	if len(installs) == 0 {
 		c.Undecided("SetCryptographer@PairVerify.ServeHTTP", ep.Pos(), "the endpoint does not install a cryptographer: anchor lost")
 		return
@@ -566,7 +573,9 @@ func c03r3(c *core.Ctx) {
 	// the secure session is built from the shared key of the same controller that produced the response
 	ep := p.Func("hap/endpoint", "(*PairVerify).ServeHTTP")
 	if ep != nil {
-		for _, site := range core.FindCalls(ep, func(i ssa.Instruction) bool { return core.IsInvoke(i, qSession, "SetCryptographer") }) {
+		for _, l := range liftedSites(ep, func(i ssa.Instruction) bool { return core.IsInvoke(i, qSession, "SetCryptographer") }) {
+			l := l
+			site := l.inner
 			arg := core.Args(site)[0]
 			ok := core.AnySource(arg, func(s ssa.Value) bool {
 				call := core.CallResult(s, 0, func(i ssa.Instruction) bool { return core.IsCall(i, mod+"/crypto.NewSecureSessionFromSharedKey") })
@@ -581,7 +590,7 @@ func c03r3(c *core.Ctx) {
 					// same controller value as the one whose Handle produced the response
 					same := false
 					core.Instrs(ep, func(i ssa.Instruction) {
-						if core.IsInvoke(i, mod+"/hap.PairVerifyHandler", "Handle") && sameValue(core.Receiver(i), kc.Call.Value) {
+						if core.IsInvoke(i, mod+"/hap.PairVerifyHandler", "Handle") && sameValue(core.Receiver(i), l.val(kc.Call.Value)) {
 							same = true
 						}
 					})
